@@ -560,7 +560,11 @@ func (b *builder) faults(prog []*scen.TestNode, kill bool) []scen.Fault {
 		k := kinds[r.Intn(len(kinds))]
 		f := scen.Fault{Kind: k.kind, CallID: ids[r.Intn(len(ids))], Nth: 1 + r.Intn(2), Err: k.errs[r.Intn(len(k.errs))]}
 		if k.kind == "readdir" || k.kind == "remove" {
+			// operations of Clean: addressed by directory, because Clean visits directories
+			// in Go map order, which nobody can seed (DESIGN.md 5.8)
 			f.CallID = -1
+			f.PathSuffix = []string{"/__snapshots__", "/snaps_dir", "/.snapshots", "/snapdir"}[r.Intn(4)]
+			f.Nth = 1
 		}
 		if (k.kind == "write" || k.kind == "writefile") && r.Bool(0.5) {
 			f.Short = 1 + r.Intn(6)
